@@ -29,8 +29,11 @@ def streams(tier, seed):
     if tier == "quick":
         return [dict(tag="main", count=4, seed=seed, extra={"tier": "quick", "pdr-cap": 4, "jobs": 8})]
     out = []
-    for k in range(5):
-        out.append(dict(tag="main%d" % k, count=8, seed=seed * 100 + k, extra={"tier": "thorough", "pdr-cap": 16, "jobs": 10}))
+    for k in range(4):
+        out.append(dict(tag="z3-%d" % k, count=8, seed=seed * 100 + k,
+                        extra={"tier": "thorough", "pdr-cap": 10, "jobs": 10, "live-every": 40, "secondary-bmc": "all", "secondary-pdr": "rotate"}))
+    out.append(dict(tag="cvc5", count=8, seed=seed * 100 + 7,
+                    extra={"tier": "thorough", "solver": "cvc5", "pdr-cap": 10, "jobs": 10, "live-every": 40, "secondary-bmc": "all", "secondary-pdr": "rotate"}))
     return out
 
 
